@@ -162,3 +162,14 @@ package curves
 //@   ensures[C07.sum] e1 == nil && e2 == nil && c.Config.Function.Type == "sum" && membersUp(memberCount) ==> v1 <= v2
 //@   ensures[C07.average] e1 == nil && e2 == nil && c.Config.Function.Type == "average" && membersUp(memberCount) ==> v1 <= v2
 //@   modifies anything
+
+// ---- constructor (C06, C11): the curve object evaluates the configuration it was built from ---------------------
+//@ func NewSpeedCurve
+//@   params (config)
+//@   props C06 C11
+//@   returns (curve, err)
+//@   ensures[C06.new.linear C11] config.Linear != nil ==> err == nil && curve is *LinearSpeedCurve && curve.(*LinearSpeedCurve) != nil && fresh(curve.(*LinearSpeedCurve)) && curve.(*LinearSpeedCurve).Config.ID == config.ID && curve.(*LinearSpeedCurve).Config.Linear == config.Linear
+//@   ensures[C06.new.pid C11] config.Linear == nil && config.PID != nil ==> err == nil && curve is *PidSpeedCurve && curve.(*PidSpeedCurve) != nil && fresh(curve.(*PidSpeedCurve)) && curve.(*PidSpeedCurve).Config.ID == config.ID && curve.(*PidSpeedCurve).Config.PID == config.PID && curve.(*PidSpeedCurve).pidLoop != nil && same(curve.(*PidSpeedCurve).pidLoop.p, config.PID.P) && same(curve.(*PidSpeedCurve).pidLoop.i, config.PID.I) && same(curve.(*PidSpeedCurve).pidLoop.d, config.PID.D)
+//@   ensures[C06.new.function C11] config.Linear == nil && config.PID == nil && config.Function != nil ==> err == nil && curve is *FunctionSpeedCurve && curve.(*FunctionSpeedCurve) != nil && fresh(curve.(*FunctionSpeedCurve)) && curve.(*FunctionSpeedCurve).Config.ID == config.ID && curve.(*FunctionSpeedCurve).Config.Function == config.Function
+//@   ensures[C06.new.none C11] config.Linear == nil && config.PID == nil && config.Function == nil ==> err != nil
+//@   modifies nothing
